@@ -172,7 +172,7 @@ def run(ctx):
         benign = rng.random() < 0.6
         out = SC.gen_outcome(rng, W, benign=benign)
         run_family(ctx, W, out, nsched, terms)
-    bad = ctx.model_mismatches(SC.HEADER, [t[0] for t in terms], 'check_case', chunk=60)
+    bad = ctx.model_mismatches(SC.HEADER, [t[0] for t in terms], 'check_case', chunk=40)
     for k, i in enumerate(bad):
         ctx.disagree(terms[i][1], 'trace of the real controller', '', 'C01/C02 trace: real Controller vs Sched.Model.step')
 
